@@ -159,12 +159,13 @@ fn c07_eval(cfg: &ChainCfg, e: Exec, failures: &mut Vec<(String, String)>) -> u6
                     ));
                 }
                 if cfg.regime == Regime::Otel {
-                    match f.hcurrent.get(&hop).and_then(|v| v.first()) {
-                        Some((cd, _, _, _, _)) if *cd == *got_d => {}
-                        other => failures.push((
+                    // [0] asked in the handler's body, [1] asked inside a span of the handler's own
+                    let seen = f.hcurrent.get(&hop).cloned().unwrap_or_default();
+                    if seen.len() < 2 || seen.iter().any(|(cd, _, _, _, _)| *cd != *got_d) {
+                        failures.push((
                             "C07-current-context".into(),
-                            format!("{label}: hop {hop}: context::current() inside the handler gave {:?}, the request carried {}ns", other.map(|o| o.0), got_d),
-                        )),
+                            format!("{label}: hop {hop}: context::current() inside the handler (in its body, inside a span of its own) gave {:?}, the request carried {}ns", seen.iter().map(|o| o.0).collect::<Vec<_>>(), got_d),
+                        ));
                     }
                 }
             }
